@@ -5,77 +5,10 @@
    squared domain (sqrt is ill-conditioned at 0: an energy-dependent isotope alone has
    sigma_s = sigma_c exactly and the float difference is rounding noise). *)
 From Coq Require Import ZArith QArith Qabs String List Bool.
-From PT Require Import Str Dec Py Loaders Formula AtomEnv C06Check Nsf C07Check IExpr ICheck Neutron NsfCalc.
+From PT Require Import Str Dec Py Loaders Formula AtomEnv C06Check Nsf C07Check IExpr ICheck Neutron NsfCalc NeutronData NeutronEval.
 From PT.Gen Require Import Constants.
 Import ListNotations.
 Open Scope string_scope.
-
-(* ------------------------------------------------------------------ spec side: tabulated values *)
-Definition H_Q : Q := q_or_0 (parse_dec plancks_constant_text).
-Definition EV_Q : Q := q_or_0 (parse_dec electron_volt_text).
-Definition MN_Q : Q := q_or_0 (parse_dec neutron_mass_text).
-Definition U_Q : Q := q_or_0 (parse_dec atomic_mass_constant_text).
-Definition EF_spec : Q := Qred (energy_factor_Q H_Q EV_Q MN_Q U_Q).
-Definition VF_spec : Q := Qred (velocity_factor_Q H_Q EV_Q MN_Q U_Q).
-
-Definition spec_wl_expr (w : wl) : expr :=
-  match w with WLam q => cq q | WEn e => ESqrt (EDiv (cq EF_spec) (cq e)) end.
-Definition spec_wl_sq (w : wl) : Q :=
-  match w with WLam q => Qred (q * q) | WEn e => Qred (EF_spec / e) end.
-
-(* wavelength of a tabulated energy (eV): sqrt(EF/(1000 E)) *)
-Definition spec_node_sq (e : Q) : Q := Qred (EF_spec / (1000 * e)).
-Definition spec_node_x (e : Q) : expr := ESqrt (EDiv (cq EF_spec) (EMul (ez 1000) (cq e))).
-Definition re_nodes (rows : list erow) : list enode :=
-  map (fun r => match r with (e, re, _) => (spec_node_sq e, spec_node_x e, re) end) rows.
-Definition im_nodes (rows : list erow) : list enode :=
-  map (fun r => match r with (e, _, im) => (spec_node_sq e, spec_node_x e, im) end) rows.
-
-(* "has neutron data": a bound coherent scattering length is tabulated *)
-Definition spec_has_data (D : ndata) (a : atom) : bool := is_someb (r_bc (nd_rec D (az a) (aa a))).
-
-(* the per-atom quantities of the documentation at the wavelength *)
-Definition spec_atom (D : ndata) (w : wl) (p : atom * Q) : option compE :=
-  let a := fst p in
-  let r := nd_rec D (az a) (aa a) in
-  let m := e_mass (nd_env D) a in
-  let x := spec_wl_expr w in
-  let sq := spec_wl_sq w in
-  match r_tab r with
-  | None =>
-      match r_bc r, r_abs r, r_tot r with
-      | Some b, Some ab, Some t =>
-          Some (mkCE (snd p) m (num_expr b) (E_im_of_absorption (cq ab)) (num_expr t))
-      | _, _, _ => None
-      end
-  | Some (ETab rows) =>
-      let re := E_interp sq x (re_nodes rows) in
-      let im := E_interp sq x (im_nodes rows) in
-      Some (mkCE (snd p) m re im (E_sigma_s_of_b re im))
-  | Some ELuNat =>
-      let z := nd_lu D in
-      let r175 := nd_rec D z 175 in
-      match r_bc r175, r_abs r175, r_tab (nd_rec D z 176), nd_abund D z 175, nd_abund D z 176 with
-      | Some b, Some ab, Some (ETab rows), Some a175, Some a176 =>
-          let re := E_abundance_mix (num_expr b) a175 (E_interp sq x (re_nodes rows)) a176 in
-          let im := E_abundance_mix (E_im_of_absorption (cq ab)) a175 (E_interp sq x (im_nodes rows)) a176 in
-          Some (mkCE (snd p) m re im (E_sigma_s_of_b re im))
-      | _, _, _, _, _ => None
-      end
-  end.
-
-Inductive spec_outcome := SNone | SVals (v : list (option (list expr * expr))) | SRaise.
-
-Definition spec_compound (D : ndata) (s : struct) (density natural_density : option Q) (ws : list wl)
-  : spec_outcome :=
-  match init_density (nd_env D) s density natural_density with
-  | None => SRaise
-  | Some rho =>
-      let d := count_atoms s in
-      if negb (forallb (fun p => spec_has_data D (fst p)) d) then SNone else
-      SVals (map (fun w => do l <- all_some (map (spec_atom D w) d);
-                           Some (E_outputs NAq l rho (spec_wl_expr w), E_rho_inc_sq NAq l rho)) ws)
-  end.
 
 (* ------------------------------------------------------------------ scales *)
 Definition abs_sum (f : compE -> expr) (ps : list compE) : expr :=
@@ -100,17 +33,35 @@ Definition model_inc_sq (o : outs) : expr :=
   EMul (ESqr (EMul (ez 10) (o_N o))) (EDiv (o_sigma_i o) FOURPI_100).
 
 Definition TP : Z := (-30)%Z.
+Definition bounds := option (Q * Q).
 
-(* one output number p against a value expression *)
-Definition cmp_out (j : nat) (p : Q) (val valsq : expr) (scales : list expr) : bool :=
+(* one output number p against the enclosure of a value *)
+Definition cmp_out (j : nat) (p : Q) (val valsq : bounds) (scales : list bounds) : bool :=
   match j with
-  | 2%nat => (Qle_bool 0 p && within TP (p * p)%Q (enclose valsq) (enclose (nth 2 scales (ez 0))))%bool
-  | 6%nat => let e := enclose val in within TP p e e
-  | _ => within TP p (enclose val) (enclose (nth j scales (ez 0)))
+  | 2%nat => (Qle_bool 0 p && within TP (p * p)%Q valsq (nth 2 scales None))%bool
+  | 6%nat => within TP p val val
+  | _ => within TP p val (nth j scales None)
   end.
 
 Definition outs_list (o : outs) : list expr := [o_re o; o_im o; o_inc o; o_coh o; o_abs o; o_ixs o; o_pen o].
 Definition out_names : list string := ["sld_re"; "sld_im"; "sld_inc"; "coh_xs"; "abs_xs"; "inc_xs"; "penetration"].
+
+Definition piece_exprs (ps : list compE) : list expr := flat_map (fun c => [ce_re c; ce_im c; ce_ss c]) ps.
+
+(* enclosures of the model's outputs [7] (entry 2 is unused: sld_inc is compared through its square),
+   of the square of sld_inc, and of the scales *)
+Definition model_bounds (o : outs) (ps : list compE) : list bounds * bounds * list bounds :=
+  let c := memo_all [] ([o_lam o] ++ piece_exprs ps ++ [o_N o; o_bre o; o_bim o; o_ss o; o_sigma_i o])%list in
+  (map (fun j => if Nat.eqb j 2 then None else enc_c c (nth j (outs_list o) (ez 0))) (seq 0 7),
+   enc_c c (model_inc_sq o),
+   map (enc_c c) (scale_exprs (o_N o) (o_lam o) ps)).
+
+Definition spec_bounds (l : list compE) (rho : Q) (lam : expr) : list bounds * bounds :=
+  let c := memo_all [] ([lam] ++ piece_exprs l
+                        ++ [E_n_total l; E_number_density NAq l rho; E_b_re l; E_b_im l; E_sigma_s l; E_sigma_c l;
+                            E_sigma_a l lam; E_sigma_i l])%list in
+  (map (fun j => if Nat.eqb j 2 then None else enc_c c (nth j (E_outputs NAq l rho lam) (ez 0))) (seq 0 7),
+   enc_c c (E_rho_inc_sq NAq l rho)).
 
 (* ------------------------------------------------------------------ cases *)
 (* call: 0 neutron_scattering(compound, ...), 1 neutron_sld(compound, ...),
@@ -158,24 +109,25 @@ Definition is_vacuum (sld_only : bool) (v : pyval) : bool :=
 Definition nthd {A} (i : nat) (l : list A) (d : A) : A := nth i l d.
 
 (* verdicts of one wavelength i: every present output j against model and spec *)
-Definition verdicts_at (leaves : list (list Q)) (i : nat) (mo : outs) (scales : list expr)
-           (sp : option (option (list expr * expr))) : list (string * bool) :=
+Definition verdicts_at (leaves : list (list Q)) (i : nat) (mb : list bounds * bounds * list bounds)
+           (sp : option (option (list bounds * bounds))) : list (string * bool) :=
+  let '(mvals, msq, scales) := mb in
   flat_map (fun j =>
     let p := nth i (nth j leaves []) 0%Q in
     let name := nth j out_names "?" in
-    let mv := cmp_out j p (nth j (outs_list mo) (ez 0)) (model_inc_sq mo) scales in
+    let mv := cmp_out j p (nth j mvals None) msq scales in
     let sv := match sp with
-              | Some (Some (so, sq)) => [("spec:" ++ name, cmp_out j p (nth j so (ez 0)) sq scales)]
-              | Some None => [("spec:" ++ name ++ ":no-value", false)]
+              | Some (Some (so, sq)) => [(("spec:" ++ name)%string, cmp_out j p (nth j so None) sq scales)]
+              | Some None => [(("spec:" ++ name ++ ":no-value")%string, false)]
               | None => []
               end in
     (("model:" ++ name)%string, mv) :: sv) (seq 0 (length leaves)).
 
-Definition pieces_of (D : ndata) (call : Z) (s : struct) (w : wl) : list compE :=
-  match all_some (map (atom_piece D w) (count_atoms s)) with Some l => l | None => [] end.
-
 Definition atom_of_struct (s : struct) : option atom :=
   match s with [(_, FAtom a)] => Some a | _ => None end.
+
+Definition outs0 : outs :=
+  mkO (ez 0) (ez 0) (ez 0) (ez 0) (ez 0) (ez 0) (ez 0) (ez 0) (ez 0) (ez 0) (ez 0) (ez 0) (ez 0).
 
 Definition call_verdicts (D : ndata) (call : Z) (s : struct) (density natural_density : option Q)
            (wkind : Z) (vector : bool) (wvals : list Q) (obs : pyval) : list (string * bool) :=
@@ -191,7 +143,6 @@ Definition call_verdicts (D : ndata) (call : Z) (s : struct) (density natural_de
             else neutron_scattering D s density natural_density ws in
   let sp := if direct then None      (* the direct path is tied to the one-atom compound by theorem and by the harness *)
             else Some (spec_compound D s density natural_density ws) in
-  let spec_none := match sp with Some SNone => true | _ => false end in
   match mo with
   | ORaise e => [("model raises", match obs with PE e' => err_eqb e e' | _ => false end)]
   | ONone =>
@@ -209,15 +160,17 @@ Definition call_verdicts (D : ndata) (call : Z) (s : struct) (density natural_de
               if negb (Nat.eqb (length v) n) then [("model arity", false)] else
               flat_map (fun i =>
                           let w := nth i ws (WLam 1) in
-                          let o := nth i v (mkO (ez 0) (ez 0) (ez 0) (ez 0) (ez 0) (ez 0) (ez 0) (ez 0) (ez 0)) in
-                          let ps := pieces_of D call s w in
-                          let scales := scale_exprs (o_N o) (wl_expr w) ps in
+                          let '(o, ps) := nth i v (outs0, []) in
                           let spi := match sp with
-                                     | Some (SVals l) => Some (nth i l None)
+                                     | Some (SVals l rho) =>
+                                         Some (match nth i l None with
+                                               | Some cl => Some (spec_bounds cl rho (spec_wl_expr w))
+                                               | None => None
+                                               end)
                                      | Some _ => Some None
                                      | None => None
                                      end in
-                          verdicts_at leaves i o scales spi) (seq 0 n)
+                          verdicts_at leaves i (model_bounds o ps) spi) (seq 0 n)
           end
       end
   end.
